@@ -95,6 +95,7 @@ func (ex *Exec) VerifyFunc(ct *Contract) (res *FuncResult) {
 			st.Assume(Or(Eq(a, IntLit(0)), Not(Eq(a, b))))
 		}
 	}
+	fvCells := map[string]int{}
 	for _, fv := range fn.FreeVars {
 		// captured variable: a cell with unknown content
 		et := fv.Type().(*types.Pointer).Elem()
@@ -109,6 +110,7 @@ func (ex *Exec) VerifyFunc(ct *Contract) (res *FuncResult) {
 			content = c
 		}
 		id := st.NewCell(content)
+		fvCells[fv.Name()] = id
 		pv := &PtrVal{Kind: PLocal, Cell: id, Root: et}
 		st.env[fv] = pv
 		if ct, isT := content.(T); isT {
@@ -145,6 +147,12 @@ func (ex *Exec) VerifyFunc(ct *Contract) (res *FuncResult) {
 		}
 		if len(results) == 1 {
 			rv["result"] = results[0]
+		}
+		// captured variables of a closure under contract: final_<name> is the content at return
+		for name, id := range fvCells {
+			if c, ok := st2.cells[id]; ok {
+				rv["final_"+name] = c
+			}
 		}
 		// ghost variables of iterators / ranges alive at the return (function-internal clauses may use them)
 		for name, res := range st2.callRes {
@@ -318,8 +326,13 @@ func (ex *Exec) LemmaObligations(l *Lemma) ([]*Obligation, error) {
 		if len(f) != 2 {
 			return nil, fmt.Errorf("lemma %s: bad parameter %q", l.Name, p)
 		}
-		vars[f[0]] = st.Fresh("l_"+f[0], f[1])
+		// lemma variables get names that do not depend on the generator's fresh counter: the query text of a
+		// lemma is then a function of the lemma and the spec functions only (stable proofs)
+		v := T{S: "l_" + sanitize(f[0]), Sort: f[1]}
+		st.decls = append(st.decls, fmt.Sprintf("(declare-const %s %s)", v.S, v.Sort))
+		vars[f[0]] = v
 	}
+	nBase := len(st.pc)
 	env := &SpecEnv{ex: ex, vars: vars, cur: st, bound: map[string]T{}}
 	for _, h := range l.Hyps {
 		t, err := env.TrBool(h.Expr)
@@ -332,6 +345,7 @@ func (ex *Exec) LemmaObligations(l *Lemma) ([]*Obligation, error) {
 	if err != nil {
 		return nil, fmt.Errorf("lemma %s goal: %v", l.Name, err)
 	}
+	st.pc = append([]T(nil), st.pc[nBase:]...) // only the hypotheses (the state facts of NewState are irrelevant)
 	return []*Obligation{
 		{Name: "lemma:" + l.Name + "/" + l.Label + "/lemma", Func: "lemma:" + l.Name, Label: l.Label, Kind: "lemma", Decls: st.decls, PC: st.pc, Goal: g, Src: "goal " + l.Goal.Src},
 		{Name: "lemma:" + l.Name + "/cover:hyps", Func: "lemma:" + l.Name, Label: "", Kind: "cover", Cover: true, Decls: st.decls, PC: st.pc, Goal: Bool(false), Src: "hypotheses satisfiable"},
